@@ -326,7 +326,7 @@ MUTANTS = {
     'field_component_index_from_mapping_order': {'module': 'field', 'contract': 'Field.rotate90', 'config': {'ndim': 3, 'nvdim': 3, 'ax1': 0, 'ax2': 1, 'inplace': False, 'mapping': 'shuffled_dict'},
                                                  'old': 'vdim1 = self.vdims.index(self._r_dim_mapping[ax1])', 'new': 'vdim1 = list(self.vdim_mapping.values()).index(ax1)'},
     'field_vector_rotation_sign': {'module': 'field', 'contract': 'Field.rotate90', 'config': {'ndim': 2, 'nvdim': 2, 'ax1': 0, 'ax2': 1, 'inplace': True, 'mapping': 'default'},
-                                   'old': 'value[..., vdim1] = np.cos(theta) * value1 - np.sin(theta) * value2', 'new': 'value[..., vdim1] = np.cos(theta) * value1 + np.sin(theta) * value2'},
+                                   'old': 'value[..., vdim1] = cos * value1 - sin * value2', 'new': 'value[..., vdim1] = cos * value1 + sin * value2'},
     'field_validity_axes_swapped': {'module': 'field', 'contract': 'Field.rotate90', 'config': {'ndim': 2, 'nvdim': 1, 'ax1': 0, 'ax2': 1, 'inplace': False, 'mapping': 'none'},
                                     'old': 'valid = np.rot90(self.valid.copy(), k=k, axes=(idx1, idx2))', 'new': 'valid = np.rot90(self.valid.copy(), k=k, axes=(idx2, idx1))'},
     'field_refusal_after_mesh_rotation': {'module': 'field', 'contract': 'Field.rotate90', 'config': {'ndim': 2, 'nvdim': 2, 'ax1': 0, 'ax2': 1, 'inplace': True, 'mapping': 'missing'},
